@@ -72,6 +72,7 @@ def build_crate(workdir, kspecs):
         f.write("[net]\noffline = true\n")
     per_file = {}  # relpath -> list of (offset, text)
     fn_infos = []
+    seen_mods = set()
     for uid, ks in kspecs:
         for at in ks.get("attrs", []):
             sf = sources.src(at["file"])
@@ -82,6 +83,9 @@ def build_crate(workdir, kspecs):
             fn_infos.append(dict(unit=uid, file=at["file"], fn=at["fn"], line=loc["line"], end_line=loc["end_line"],
                                  overlay="function contract attributes", sha256=sources.sha256_file(at["file"])))
         for md in ks.get("modules", []):
+            if (md["file"], md["name"]) in seen_mods:
+                continue
+            seen_mods.add((md["file"], md["name"]))
             sf = sources.src(md["file"])
             code = md["code"]
             txt = "\n#[cfg(kani)]\n#[allow(unused, non_snake_case, clippy::all)]\nmod %s {\n    use super::*;\n%s\n}\n" % (md["name"], code)
@@ -226,7 +230,7 @@ def classify(run, wanted):
         real = [c for c in failed if c not in incon]
         if status == "failed" and not real:
             status = "inconclusive"
-        stats = cb.get(hid, {}).get("cbmc_stats", {})
+        stats = (cb.get(hid) or {}).get("cbmc_stats") or {}
         res[short] = dict(id=hid, status=status, total=len(checks),
                           passed=sum(1 for c in checks if c.get("status") == "Success"),
                           failed=[dict(description=c.get("description"), function=c.get("function"),
